@@ -301,12 +301,13 @@ Proof.
   intros x Hx. apply Hf. apply in_or_app. now right.
 Qed.
 
-(* a withheld pass: the exact rule forbids it, unless a hash collision is involved *)
-Theorem withheld_pass_exact s pp G b0 : RepInv s pp G b0 -> NoCollisionAt s G b0 (board s) ->
+(* a withheld pass: what the engine's 64-bit comparisons found *)
+Theorem withheld_pass_exact_hash s pp G b0 : RepInv s pp G b0 ->
   In Pass (valid_actions_no_rep s) -> ~ In Pass (valid_actions s) ->
-  beq (board s) b0 \/ (2 <= length (filter (fun x => (z_from_piece_board (board s) (negb (side s)) 0 =? hpos x)%N) G))%nat.
+  z_from_piece_board (board s) (side s) 0 = z_from_piece_board b0 (side s) 0 \/
+  (2 <= length (filter (fun x => (z_from_piece_board (board s) (negb (side s)) 0 =? hpos x)%N) G))%nat.
 Proof.
-  intros RI [NC1 NC2] OffN NotV.
+  intros RI OffN NotV.
   pose proof (hi_play s pp (ri_hash _ _ _ _ RI)) as Inv. pose proof (inv_board s pp Inv) as W.
   apply (can_pass_norep_iff s pp Inv) in OffN.
   assert (can_pass s true = false) as CP.
@@ -316,20 +317,28 @@ Proof.
   rewrite (hi_hash s pp (ri_hash _ _ _ _ RI)) in CP. rewrite z_exclude_step_spec, z_pass_spec in CP by exact W.
   rewrite (ri_init _ _ _ _ RI), (ri_hist _ _ _ _ RI) in CP.
   apply andb_false_iff in CP. destruct CP as [CP|CP].
-  - left. apply negb_false_iff, N.eqb_eq in CP. apply NC1. now symmetry.
+  - left. apply negb_false_iff, N.eqb_eq in CP. now symmetry.
   - right. apply negb_false_iff in CP. unfold hash_history_contains_hash_twice in CP. apply Nat.leb_le in CP.
     now rewrite count_hash_map in CP.
 Qed.
 
-(* a withheld fourth step: the exact rule forbids it, unless a hash collision is involved *)
-Theorem withheld_step_exact s pp G b0 i d : RepInv s pp G b0 ->
+(* a withheld pass: the exact rule forbids it, unless a hash collision is involved *)
+Theorem withheld_pass_exact s pp G b0 : RepInv s pp G b0 -> NoCollisionAt s G b0 (board s) ->
+  In Pass (valid_actions_no_rep s) -> ~ In Pass (valid_actions s) ->
+  beq (board s) b0 \/ (2 <= length (filter (fun x => (z_from_piece_board (board s) (negb (side s)) 0 =? hpos x)%N) G))%nat.
+Proof.
+  intros RI [NC1 NC2] OffN NotV. destruct (withheld_pass_exact_hash s pp G b0 RI OffN NotV) as [V|V]; [left; now apply NC1|now right].
+Qed.
+
+(* a withheld fourth step: what the engine's 64-bit comparisons found *)
+Theorem withheld_step_exact_hash s pp G b0 i d : RepInv s pp G b0 ->
   let nb := board (take_action s (Move i d)) in
-  NoCollisionAt s G b0 nb ->
   In (Move i d) (valid_actions_no_rep s) -> ~ In (Move i d) (valid_actions s) ->
   step_of pp = 3 /\ trapped pp = false /\
-  (beq nb b0 \/ (2 <= length (filter (fun x => (z_from_piece_board nb (negb (side s)) 0 =? hpos x)%N) G))%nat).
+  (z_from_piece_board nb (side s) 0 = z_from_piece_board b0 (side s) 0 \/
+   (2 <= length (filter (fun x => (z_from_piece_board nb (negb (side s)) 0 =? hpos x)%N) G))%nat).
 Proof.
-  intros RI nb [NC1 NC2] OffN NotV.
+  intros RI nb OffN NotV.
   pose proof (hi_play s pp (ri_hash _ _ _ _ RI)) as Inv. pose proof (inv_board s pp Inv) as W. pose proof (inv_phase s pp Inv) as Hph.
   pose proof (offered_move_pre s pp i d Inv OffN) as [Hi (t & o & k & Hd & Hc & Ht)].
   pose proof (take_move_WFb (board s) i d t W Hi Hd Ht) as Wn.
@@ -343,8 +352,20 @@ Proof.
   rewrite (ri_init _ _ _ _ RI), (ri_hist _ _ _ _ RI) in K2.
   assert (nb = fst (pb_take_move (board s) i d)) as Enb by (unfold nb; cbn [take_action]; rewrite (move_piece_unfold s pp i d Hph); reflexivity).
   rewrite <- Enb in K2. apply orb_prop in K2. destruct K2 as [K2|K2].
-  - left. apply N.eqb_eq in K2. now apply NC1.
+  - left. now apply N.eqb_eq in K2.
   - right. unfold hash_history_contains_hash_twice in K2. apply Nat.leb_le in K2. now rewrite count_hash_map in K2.
+Qed.
+
+(* a withheld fourth step: the exact rule forbids it, unless a hash collision is involved *)
+Theorem withheld_step_exact s pp G b0 i d : RepInv s pp G b0 ->
+  let nb := board (take_action s (Move i d)) in
+  NoCollisionAt s G b0 nb ->
+  In (Move i d) (valid_actions_no_rep s) -> ~ In (Move i d) (valid_actions s) ->
+  step_of pp = 3 /\ trapped pp = false /\
+  (beq nb b0 \/ (2 <= length (filter (fun x => (z_from_piece_board nb (negb (side s)) 0 =? hpos x)%N) G))%nat).
+Proof.
+  intros RI nb [NC1 NC2] OffN NotV. destruct (withheld_step_exact_hash s pp G b0 i d RI OffN NotV) as (S3 & T & V).
+  split; [exact S3|]. split; [exact T|]. destruct V as [V|V]; [left; now apply NC1|now right].
 Qed.
 
 (* after a capture earlier in the turn nothing is withheld at the fourth step (and rightly so: C05 holds regardless) *)
